@@ -476,6 +476,7 @@ class MarkdownNormalizer(Renderer):
         self._in_table_cell: bool = False  # Track if we're rendering a table cell
         self._emphasis_depth: int = 0  # How many (single) emphasis spans enclose the current node
         self._emphasis_in_word: bool = False  # Set for a nested emphasis span next to a letter
+        self._period_follows: bool = False  # Set for an escaped period before another period
         # Reverse index of the current document's link reference definitions (see render_link).
         self._ref_labels_source: Any = None
         self._ref_labels: dict[Any, str] = {}
@@ -838,17 +839,22 @@ class MarkdownNormalizer(Renderer):
     @override
     def render_children(self, element: Any) -> Any:
         children = element.children
-        if not self._emphasis_depth or not isinstance(children, list):
+        if not isinstance(children, list):
             return super().render_children(element)
-        # Inside emphasis: tell a nested emphasis span whether it touches a letter or digit.
         parts: list[str] = []
         siblings = cast(list[Any], children)
         for i, child in enumerate(siblings):
-            if isinstance(child, inline.Emphasis):
+            following = siblings[i + 1] if i + 1 < len(siblings) else None
+            if self._emphasis_depth and isinstance(child, inline.Emphasis):
+                # Inside emphasis: tell a nested emphasis span whether it touches a letter or digit.
                 before = parts[-1][-1:] if parts else ""
-                following = siblings[i + 1] if i + 1 < len(siblings) else None
                 after = following.children[:1] if isinstance(following, inline.RawText) else ""
                 self._emphasis_in_word = before.isalnum() or after.isalnum()
+            elif isinstance(child, inline.Literal) and child.children == ".":
+                # Tell an escaped period whether another period follows it (see render_literal).
+                self._period_follows = isinstance(following, (inline.RawText, inline.Literal)) and (
+                    following.children[:1] == "."
+                )
             parts.append(self.render(child))
         return "".join(parts)
 
@@ -920,6 +926,14 @@ class MarkdownNormalizer(Renderer):
         # Only handle period escapes - leave all other escapes as-is
         # Other punctuation escapes (*, #, -, _, etc.) may be needed for various syntax
         if char != ".":
+            self._current_inline_text += f"\\{char}"
+            return f"\\{char}"
+
+        # For periods: keep the escape next to another period. `wait\.\.\.` is not an ellipsis
+        # for the author; unescaped it would read `wait...` and the ellipses option would
+        # convert it on the next run.
+        period_follows, self._period_follows = self._period_follows, False
+        if period_follows or self._current_inline_text.endswith("."):
             self._current_inline_text += f"\\{char}"
             return f"\\{char}"
 
